@@ -763,6 +763,24 @@ def case_dense(case, ctx, teneva, rng):
                 np.zeros(mo)]), 'func_get_full vs func_get on the same points')
     ys = teneva.func_get_full(X[:mi + mb], Ad, a, b, z, skip_out=False)
     ctx.close('get-full', ys, fX, tol, 'func_get_full(skip_out=False), inside')
+    # fill values that are not finite (NaN marks "no value" in most pipelines)
+    zn = [np.nan, np.inf, -np.inf][int(rng.integers(3))]
+    yn = np.asarray(teneva.func_get_full(X, Ad, fa, fb, zn))
+    if ctx.check('shape', yn.shape == (len(X),), 'func_get_full(z non-finite)'
+            ': wrong result shape'):
+        ctx.close('get-full', yn[:mi + mb], fX, tol, f'func_get_full with '
+            f'fill value {zn}: points inside the box', box=[a, b], n=n)
+        out = yn[mi + mb:]
+        ctx.check('get-full-outside', bool(np.all(np.isnan(out)) if
+            np.isnan(zn) else np.all(out == zn)), f'func_get_full: points '
+            f'outside the box did not receive the fill value {zn}', got=out)
+    if Att is not None:
+        ytn = np.asarray(teneva.func_get(X, Att, fa, fb, z=zn))
+        ctx.close('get-inside', ytn[:mi + mb], fX, tol, f'func_get with fill '
+            f'value {zn}: points inside the box')
+        ctx.check('get-outside', bool(np.all(np.isnan(ytn[mi + mb:])) if
+            np.isnan(zn) else np.all(ytn[mi + mb:] == zn)), f'func_get: '
+            f'points outside did not receive the fill value {zn}')
 
     # --- func_gets_full on a new grid (explicit loop over all points inside)
     for _ in range(50):
